@@ -33,9 +33,10 @@ def Item.isBad (ref : T) (it : Item) : Bool := (it.bad ref).isSome
 def terminated (outcome : String) : Bool :=
   outcome == "ok" || outcome.startsWith "err"
 
-/-- outcome is an error of one of the given classes (`err:exit` = the command failed cleanly) -/
+/-- outcome is an error of one of the given classes (for the commands: the class of the message they
+    print; a command that fails for another reason — `err:exit` — has NOT delivered the tree's error) -/
 def errOutcome (outcome : String) (classes : List String) : Bool :=
-  outcome == "err:exit" || classes.any (fun c => outcome == "err:" ++ c)
+  classes.any (fun c => outcome == "err:" ++ c)
 
 /-- One record of `Compare`. -/
 structure CmpRec where
@@ -267,9 +268,17 @@ def runOK (r : Run) : Bool :=
      r.outcome == "ok" && r.records == r.records1 &&
      recIdErr r.records == some ((List.range r.items.length).zip (r.items.map fun it => (it.bad r.ref).getD ""))
    else if r.badClasses.isEmpty then
-     r.outcome == "ok" && r.outcome1 == "ok" && recordsAgree r.records r.records1
+     -- exactly the result of the single-thread run, the moved-taxa statistics of TBE included
+     r.outcome == "ok" && r.outcome1 == "ok" && r.records == r.records1
    else
      errOutcome r.outcome r.badClasses)
+
+/-- the narrow region of a possible, so far never observed, schedule dependence: TBE with the moved-taxa
+    statistics, same supports, logs that differ only in the last printed decimal (the tallies of
+    tbe.go:363-369 are float sums whose order of addition is the order of arrival under the mutex) -/
+def tbeLogFloatOrder (r : Run) : Bool :=
+  (r.kind == "tbe" || r.kind == "clitbe") && r.outcome == "ok" && r.outcome1 == "ok" &&
+  r.records != r.records1 && recordsAgree r.records r.records1
 
 /-- which clause fails (for the verdict's detail string) -/
 def runWhy (r : Run) : String :=
